@@ -101,7 +101,36 @@ func (p *objectWalker) walkAllRefs() error {
 		}
 		return p.walkObjectTree(ref.Hash())
 	})
-	return err
+	if err != nil {
+		return err
+	}
+	return p.walkIndex()
+}
+
+// walkIndex marks the objects staged in the index as seen. Until it is
+// committed, staged content is referenced by the index alone, so it has to
+// survive pruning and repacking just like the objects reachable from a
+// reference (git prune and git repack walk it with --indexed-objects).
+func (p *objectWalker) walkIndex() error {
+	idx, err := p.Storer.Index()
+	if err != nil {
+		return err
+	}
+	for _, e := range idx.Entries {
+		if e.Mode == filemode.Submodule || p.isSeen(e.Hash) {
+			continue
+		}
+		// An intent-to-add entry, or one whose blob a promisor remote
+		// withheld, names an object that is not stored locally.
+		if err := p.Storer.HasEncodedObject(e.Hash); err != nil {
+			if errors.Is(err, plumbing.ErrObjectNotFound) {
+				continue
+			}
+			return err
+		}
+		p.add(e.Hash)
+	}
+	return nil
 }
 
 func (p *objectWalker) isSeen(hash plumbing.Hash) bool {
